@@ -543,7 +543,7 @@ pub fn record_trace(args: &[String]) -> i32 {
     let mut out = Out::new(&arg_value(args, "--out").unwrap_or("-".into()));
     let mut rng = Rng::new(seed ^ 0x5747);
     let caps = [0usize, 4, 2, 16];
-    let codes: [i64; 16] = [-100, -113, -200, -222, -300, -350, -400, -410, -500, -600, -700, -800, 1, 7, 32767, -32768];
+    let codes: [i64; 20] = [-100, -113, -200, -222, -300, -350, -400, -410, -500, -600, -700, -800, 1, 7, 32767, -32768, -190, -227, -450, -50];
     let mk = |op: &str, r: &str, v: i64, k: &str, c: i64, x: i64| json!({"op": op, "r": r, "v": v, "k": k, "code": c, "ext": x});
     for (ci, &cap) in caps.iter().enumerate() {
         let tst: i16 = if ci % 2 == 0 { 0 } else { -330 };
@@ -647,7 +647,7 @@ fn gen_unit(
 ) -> Value {
     let c15 = ["evq", "condq", "enab", "enabq", "ptr", "ptrq", "ntr", "ntrq", "pres", "cls", "evq", "ptr", "ntr"];
     let c16 = ["cls", "ese", "eseq", "esrq", "opc", "opcq", "rst", "wai", "sre", "sreq", "stbq", "stbq", "stbq", "tstq", "enab", "errq", "fail", "evq", "pres"];
-    let c13 = ["fail", "fail", "bad", "bad", "errq", "errq", "countq", "allq", "esrq", "opc", "cls", "nop", "nopq", "ese", "stbq"];
+    let c13 = ["fail", "fail", "bad", "bad", "errq", "errq", "countq", "allq", "esrq", "opc", "opcq", "cls", "nop", "nopq", "ese", "stbq"];
     let all: Vec<&str> = c15.iter().chain(c16.iter()).chain(c13.iter()).copied().collect();
     let op = match mix {
         "c15" => if rng.chance(9, 10) { *rng.pick(&c15) } else { *rng.pick(&all) },
